@@ -106,11 +106,19 @@ Theorem C17_reads_after_validation O data ord s ks : well_typed data -> from_raw
 Proof. intros W. apply accepted_reads. now apply well_typed_safe. Qed.
 Print Assumptions C17_reads_after_validation.
 
-(* 7. from_email: anything left unparsed makes the group (naming exactly the unparsed keys); nothing unparsed = from_raw of the raw dict *)
-Theorem C17_from_email O data validate u us :
-  from_email O true data (u :: us) = FGroup (u :: us) /\ from_email O validate data [] = from_raw O validate data /\
-  from_email O false data (u :: us) = FOk (init data).
-Proof. repeat split. apply from_email_parsed. Qed.
+(* 7. from_email (after parse_email returned the raw dict and the unparsed keys [us]): succeeds exactly when nothing was left unparsed
+      and from_raw succeeds; otherwise ONE group naming every unparsed key followed by every field from_raw objects to;
+      validate=False builds the lazy object whatever was unparsed *)
+Theorem C17_from_email O data us :
+  ((exists s, from_email O true data us = FOk s) <-> us = [] /\ exists s, from_raw O true data = FOk s) /\
+  (forall es, from_raw O true data = FGroup es -> from_email O true data us = FGroup (us ++ es)) /\
+  (forall s, from_raw O true data = FOk s -> us <> [] -> from_email O true data us = FGroup us) /\
+  from_email O false data us = FOk (init data).
+Proof.
+  split; [apply from_email_accept_iff|]. pose proof (from_email_group O data us) as H.
+  split; [intros es E; now rewrite E in H|]. split; [|reflexivity].
+  intros s E N. rewrite E in H. destruct us; [congruence | exact H].
+Qed.
 Print Assumptions C17_from_email.
 
 (* non-vacuity: a well-typed dict that is accepted, and one whose group names three fields *)
